@@ -564,6 +564,9 @@ class Ref:
         out["state"] = inst.state
         return out
 
+    def op_noop(self, op, epoch):
+        return {"res": None, "exc": None, "execs": [], "state": None, "noop": True}
+
     def op_activate2(self, op, epoch):
         return self.op_activate(op, epoch)
 
